@@ -562,6 +562,111 @@ def _quot(a, b, is_jc):
     return _Val('prob', va.axes, {}, num=list(va.axes), den=list(vb.axes), aligned=aligned)
 
 
+def _unwrap_float(v):
+    while isinstance(v, ast.Call) and call_name(v) in ('float', 'np.float64', 'np.double') and len(v.args) == 1 and \
+            not v.keywords and not isinstance(v.args[0], ast.Starred):
+        v = v.args[0]
+    return v
+
+
+def _accumulations(fi, fn, OUT):
+    """[(acc, store, init)]: every place where a term is accumulated into the
+    array `OUT`, in either of the two equivalent shapes
+      direct:  OUT[idx] += <term>                      -> (that statement, that statement, None)
+      scalar:  s = <const>; ...; s += <term>; ...; OUT[idx] = s   (or OUT[idx] += s)
+               -> (the `s += <term>`, the store into OUT, the `s = <const>`)
+    The scalar shape is recognised through reaching definitions: the value
+    stored is a local name whose definitions at the store are ONE plain
+    assignment plus augmented assignments to that name, and nothing else
+    reaches the augmented assignments.  None: a store into OUT reads an
+    accumulator whose definitions the rule cannot follow."""
+    out = []
+    for s in walk_local(fn):
+        if isinstance(s, ast.AugAssign):
+            tgts = [s.target]
+        elif isinstance(s, ast.Assign):
+            tgts = s.targets
+        else:
+            continue
+        if not any(isinstance(t, ast.Subscript) and isinstance(t.value, ast.Name) and t.value.id == OUT for t in tgts):
+            continue
+        v = _unwrap_float(s.value)
+        if isinstance(v, ast.Name) and v.id in fi.rd.locals:
+            defs = fi.rd.defs_at(s, v.id)
+            augs = [d for d in defs if isinstance(d, ast.AugAssign) and isinstance(d.target, ast.Name) and d.target.id == v.id]
+            if augs:
+                inits = [d for d in defs if not any(d is g for g in augs)]
+                ok = len(tgts) == 1 and len(inits) == 1 and isinstance(inits[0], ast.Assign) and len(inits[0].targets) == 1 \
+                    and isinstance(inits[0].targets[0], ast.Name) and inits[0].targets[0].id == v.id
+                allowed = {id(d) for d in augs} | {id(d) for d in inits}
+                for g in augs:
+                    if any(id(d) not in allowed for d in fi.rd.defs_at(g, v.id)):
+                        ok = False
+                if not ok:
+                    return None
+                out += [(g, s, inits[0]) for g in augs]
+                continue
+        if isinstance(s, ast.AugAssign):
+            out.append((s, s, None))
+    return out
+
+
+def _accumulator_scope(ck, rule, mod, fi, F, a, S, sinit):
+    """Scalar shape of _accumulations: decide that the running sum is reset
+    exactly once per entry of the result.  Entry loops = the loops around the
+    accumulation whose variable occurs in the index of the store; the reset
+    must sit inside all of them (else the sum of one entry leaks into the
+    next) and, when the store is a plain assignment, inside no other loop
+    around the accumulation (else the terms of the earlier iterations are
+    dropped).  Returns False when the analysis cannot go on."""
+    La, LS, LI = (_enclosing_loops(mod, x) for x in (a, S, sinit))
+    tgt = S.target if isinstance(S, ast.AugAssign) else S.targets[0]
+    idx_names = {n.id for it in _index_items(tgt.slice) for n in ast.walk(_xp(fi, it, S)) if isinstance(n, ast.Name)}
+    entry = [L for L in La if isinstance(L.target, ast.Name) and L.target.id in idx_names
+             and _loop_of(fi, L.target.id, S) is L]
+    if any(nm not in _MODULE_ALIASES and not any(L.target.id == nm for L in entry) for nm in idx_names):
+        ck.missing(rule + '.init', 'the index of the store `%s` is not made of the variables of the loops around the '
+                   'accumulation' % u(S)[:60])
+        return False
+    inside = lambda L, Ls: any(L is x for x in Ls)
+    con = '%s ... %s ... %s' % (u(sinit), u(a.target) + ' += <term>', u(S)[:80])
+    if any(not inside(L, La) for L in LS) or any(not inside(L, LS) and not inside(L, La) for L in LI):
+        ck.missing(rule + '.init', 'nesting of the running sum `%s`: its reset, its accumulation and the store `%s` do not '
+                   'sit in one loop nest' % (u(a.target), u(S)[:60]))
+        return False
+    leak = [L for L in entry if not inside(L, LI)]
+    if leak:
+        ck.bad(rule + '.init', mod, sinit, F, con, 'the running sum `%s` is stored into an entry indexed by `%s` but is reset '
+               'outside the loop over `%s`: the terms of one entry are carried into the next' % (
+                   u(a.target), leak[0].target.id, leak[0].target.id))
+        return False
+    extra = [L for L in LI if inside(L, La) and not inside(L, entry)]
+    if isinstance(S, ast.Assign):
+        if extra:
+            if all(inside(L, LS) for L in extra):
+                ck.bad(rule + '.init', mod, sinit, F, con, 'the running sum `%s` is reset inside the loop over `%s`, over which '
+                       'the terms are summed, and then ASSIGNED to the entry: only the terms of the last iteration survive' % (
+                           u(a.target), extra[0].target.id if isinstance(extra[0].target, ast.Name) else u(extra[0].target)))
+            else:
+                ck.bad(rule + '.init', mod, sinit, F, con, 'the running sum `%s` is reset inside the loop over `%s`, over which '
+                       'the terms are summed, and stored outside it: only the terms of the last iteration survive' % (
+                           u(a.target), extra[0].target.id if isinstance(extra[0].target, ast.Name) else u(extra[0].target)))
+            return False
+    else:
+        # OUT[idx] += s: every partial sum must be added exactly once
+        if len(LS) != len(LI) or any(not inside(L, LI) for L in LS):
+            ck.missing(rule + '.init', 'the partial sums `%s` are added to the entry in another loop than the one that '
+                       'resets them' % u(a.target))
+            return False
+    z = const_value(canon(sinit.value))
+    if isinstance(z, (int, float)) and not isinstance(z, bool):
+        ck.check(z == 0, rule + '.init', mod, sinit, F, u(sinit), 'the running sum of an entry starts at zero',
+                 'the terms are ADDED to `%s`: it must start at zero, not %r' % (u(a.target), z))
+    else:
+        ck.missing(rule + '.init', 'zero initialisation of the running sum `%s` (found `%s`)' % (u(a.target), u(sinit)[:60]))
+    return True
+
+
 _AXNAME = {0: 'first-feature', 1: 'second-feature', 2: 'first-state', 3: 'second-state'}
 
 
@@ -582,12 +687,12 @@ def d3_axes(ck):
         ck.missing(rule, 'mutual_information returns one named array')
         return
     OUT = rets[0].id
-    acc = [s for s in walk_local(fn) if isinstance(s, ast.AugAssign) and isinstance(s.target, ast.Subscript)
-           and isinstance(s.target.value, ast.Name) and s.target.value.id == OUT]
-    if len(acc) != 1:
-        ck.missing(rule, 'one accumulation `%s[i, j] += <term>` (found %d)' % (OUT, len(acc)))
+    found = _accumulations(fi, fn, OUT)
+    if found is None or len(found) != 1:
+        ck.missing(rule, 'one accumulation `%s[i, j] += <term>` or `s = 0; ...; s += <term>; ...; %s[i, j] = s` (found %s)' % (
+            OUT, OUT, 'an accumulator the rule cannot follow' if found is None else len(found)))
         return
-    a = acc[0]
+    a, S, sinit = found[0]
     lvars = {l.target.id for l in _enclosing_loops(mod, a) if isinstance(l.target, ast.Name)}
     scope = {JC} | lvars
     term = _xp(fi, a.value, a)
@@ -650,12 +755,25 @@ def d3_axes(ck):
                  'one marginal per feature', 'the two marginal factors must be the distributions of the two DIFFERENT features '
                  '(state axes 2 and 3); both keep axis %d' % kept[0])
     # ---- the entry that is accumulated is the entry of the same feature pair
-    tgt = [_cx(_xp(fi, x, a)) for x in _index_items(a.target.slice)]
-    ck.check(tgt == [jidx[0], jidx[1]], rule, mod, a, F, '%s accumulates joint[%s]' % (u(a.target), ', '.join(jidx[k] for k in range(4))),
+    starget = S.target if isinstance(S, ast.AugAssign) else S.targets[0]
+    tgt = [_cx(_xp(fi, x, S)) for x in _index_items(starget.slice)]
+    if S is not a:
+        # the loop variables named in the store are those the term was indexed with
+        for k in (0, 1):
+            nm = vj.idx[k]
+            if isinstance(nm, ast.Name) and _loop_of(fi, nm.id, a) is not None and _loop_of(fi, nm.id, S) is not _loop_of(fi, nm.id, a):
+                ck.missing(rule, 'the store `%s` is outside the loop that binds the %s index `%s` of the accumulated term' % (
+                    u(S)[:60], _AXNAME[k], nm.id))
+                return
+    ck.check(tgt == [jidx[0], jidx[1]], rule, mod, S, F, '%s accumulates joint[%s]' % (u(starget), ', '.join(jidx[k] for k in range(4))),
              'entry (i, j) accumulates the terms of feature pair (i, j)',
              'the entry accumulated must be [%s, %s], the feature pair whose joint block is summed' % (jidx[0], jidx[1]))
     # ---- the accumulator starts at zero
-    ds = fi.rd.defs_at(a, OUT)
+    if sinit is not None and not _accumulator_scope(ck, rule, mod, fi, F, a, S, sinit):
+        return
+    if isinstance(S, ast.AugAssign) and S is not a and not isinstance(S.op, ast.Add):
+        ck.bad(rule + '.init', mod, S, F, u(S), 'the partial sums must be ADDED to the entry')
+    ds = fi.rd.defs_at(S, OUT) if isinstance(S, ast.AugAssign) else ()
     site = next(iter(ds)) if len(ds) == 1 else None
     val = fi.def_value(site, OUT) if isinstance(site, (ast.Assign, ast.AnnAssign)) else None
     iv = fi.expand(val) if val is not None else None
@@ -665,6 +783,8 @@ def d3_axes(ck):
     elif icn in ('np.ones', 'np.ones_like', 'np.empty', 'np.empty_like', 'np.full', 'np.full_like') or \
             (isinstance(iv, ast.Call) and isinstance(iv.func, ast.Attribute) and iv.func.attr == 'copy'):
         ck.bad(rule + '.init', mod, site, F, u(site), 'the terms are ADDED to the entries of `%s`: it must start as zeros, not %s' % (OUT, icn or u(iv)[:60]))
+    elif isinstance(S, ast.Assign):
+        pass                              # every entry is assigned the running sum decided above
     else:
         ck.missing(rule + '.init', 'zero initialisation of the accumulated array `%s`' % OUT)
     # ---- loop ranges: index of count axis k runs over the extent of axis k
